@@ -16,7 +16,7 @@ pub const FLOORS: &[&str] = &[
     "two_loop_revisit", "removed_breakpoint_passed", "resume:continue", "resume:step", "resume:si",
     "resume:so", "loc:abs", "loc:label", "loc:pc", "break_before_first", "break_after_last",
     "break_doubled", "nondefault_origin", "trace_invariant_checked", "origin_below_statement_count", "pause_at_break_outside_image",
-    "reset_between_list_change_and_resume", "many_breakpoints", "break_with_label", "break_with_label_after_last", "pc_relative_breakpoint_after_eval_moved_the_pc", "breakpoints_a_power_of_two_apart", "word_under_a_breakpoint_patched", "breakpoint_32768_words_below_the_pc_or_a_label", "break_with_label_in_front_of_a_labelled_statement", "declared_breakpoint_removed_by_the_name_in_front_of_it",
+    "reset_between_list_change_and_resume", "many_breakpoints", "break_with_label", "break_with_label_after_last", "pc_relative_breakpoint_after_eval_moved_the_pc", "breakpoints_a_power_of_two_apart", "word_under_a_breakpoint_patched", "breakpoint_32768_words_below_the_pc_or_a_label", "break_with_label_in_front_of_a_labelled_statement", "declared_breakpoint_removed_by_the_name_in_front_of_it", "breakpoint_on_a_label_that_begins_like_a_register",
 ];
 
 struct Loopy {
@@ -469,7 +469,19 @@ fn random_case(seed: u64, i: u64) -> CaseOut {
         built.program = Program { items };
         built.input.clear();
     }
-    let wide = !spaced && rng.chance(1, 12);
+    // a label that begins like a register and goes on (`r2d2`, `R1_loop`): a label, to `break add` and `break remove` too
+    let mut reglike: Option<String> = None;
+    if !spaced && rng.chance(1, 5) {
+        let names: Vec<String> = built.program.items.iter().filter_map(|it| match it { Item::Stmt { label: Some(l), .. } => Some(l.clone()), _ => None }).collect();
+        let new = *rng.pick(&["r2d2", "R1_loop", "r0_", "R7x", "r3a", "R0_SAVE"]);
+        if let Some(old) = names.first() {
+            if !names.iter().any(|n| n == new) {
+                rename_label(&mut built.program, old, new);
+                reglike = Some(new.to_string());
+            }
+        }
+    }
+    let wide = !spaced && reglike.is_none() && rng.chance(1, 12);
     let wide_origin = *rng.pick(&[0x1000u16, 0x0200, 0x3000, 0x7D00]);
     if wide {
         // a program of more than 32768 words: breakpoints given as far as an offset reaches (-32768 words from the
@@ -498,6 +510,19 @@ fn random_case(seed: u64, i: u64) -> CaseOut {
     let lay = if rng.bool() { Layout::canonical() } else { Layout::random(&mut rng) };
     let text = render(&built.program, &lay, &mut rng).text;
     let mut cmds = Vec::new();
+    if let Some(name) = &reglike {
+        if let Some((_, idx)) = img.labels.iter().find(|(n, _)| n == name) {
+            let a = img.origin().wrapping_add(*idx as u16);
+            cmds.push(Cmd::BreakAddLoc(Loc::Label(name.clone(), a, 0)));
+            cmds.push(Cmd::BreakList);
+            cmds.push(Cmd::Continue);
+            if rng.bool() {
+                cmds.push(Cmd::BreakRemoveLoc(Loc::Label(name.clone(), a, 0)));
+                cmds.push(Cmd::BreakAddLoc(Loc::Label(name.clone(), a, 1)));
+            }
+            out.class("breakpoint_on_a_label_that_begins_like_a_register");
+        }
+    }
     if wide {
         let far = wide_origin.wrapping_add(0x8000);
         cmds.push(Cmd::GotoLoc(Loc::Label("far".into(), far, 0)));
